@@ -1188,10 +1188,11 @@ def rv_source_locals(rv):
     return out
 
 
-def forward_flow(body, seeds, through_calls=None):
+def forward_flow(body, seeds, through_calls=None, whole_only=False):
     """locals that (may) hold a value derived from the seed locals, following assignments
     (moves, copies, refs, projections, aggregates).  through_calls(callee dict) -> True lets the
-    value flow from any argument to the call's destination (adaptors such as as_ref)."""
+    value flow from any argument to the call's destination (adaptors such as as_ref).
+    whole_only: a write to a field of / through a local does not make the local itself derived."""
     flow = set(seeds)
     changed = True
     while changed:
@@ -1204,7 +1205,7 @@ def forward_flow(body, seeds, through_calls=None):
                 if st['k'] != 'assign':
                     continue
                 tgt = st['lhs']['l']
-                if tgt in flow:
+                if tgt in flow or (whole_only and st['lhs']['p']):
                     continue
                 if any(l in flow for l in rv_source_locals(st['rv'])):
                     flow.add(tgt)
